@@ -41,6 +41,25 @@ func runC16(c *config) {
 	for i := 0; i < 250*c.scale; i++ {
 		add(g.any(1 + r.intn(4)))
 	}
+	// every identified struct of the universe next to the literal struct with the very same fields
+	// (an identified struct is identified by its name, never by its body), also nested
+	for _, nm := range g.names {
+		ns := u.namedStruct(nm)
+		lit := &tyTree{kind: 'S'}
+		for _, f := range ns.Fields {
+			lit.children = append(lit.children, treeOf(f))
+		}
+		named := &tyTree{kind: 'N', name: nm}
+		add(named)
+		add(lit)
+		add(&tyTree{kind: 'A', n: 2, children: []*tyTree{named}})
+		add(&tyTree{kind: 'A', n: 2, children: []*tyTree{lit}})
+		add(&tyTree{kind: 'S', children: []*tyTree{named, {kind: 'i', n: 8}}})
+		add(&tyTree{kind: 'S', children: []*tyTree{lit, {kind: 'i', n: 8}}})
+		add(&tyTree{kind: 'F', children: []*tyTree{{kind: 'v'}, named}})
+		add(&tyTree{kind: 'F', children: []*tyTree{{kind: 'v'}, lit}})
+	}
+	nSpecial := len(trees)
 	built := make([]types.Type, len(trees))
 	for i, t := range trees {
 		built[i] = t.build(u)
@@ -81,6 +100,22 @@ func runC16(c *config) {
 			o.Fail("structural_identity", "", "Equal disagrees with structural identity", map[string]string{"t": trees[i].enc(), "u": trees[j].enc(), "ts": built[i].String(), "us": built[j].String()})
 		} else {
 			o.Pass("structural_identity")
+		}
+	}
+	// all pairs among the identified/literal look-alikes
+	for i := nSpecial - 8*len(g.names); i < nSpecial; i++ {
+		for j := nSpecial - 8*len(g.names); j < nSpecial; j++ {
+			eq, oc := c16Equal(built[i], built[j])
+			if oc != ocOk {
+				continue
+			}
+			o.Case("equal", []string{trees[i].enc(), trees[j].enc()}, []string{b2s(eq)})
+			o.Stat("equal.lookalike")
+			if eq != (trees[i].enc() == trees[j].enc()) {
+				o.Fail("structural_identity", "", "an identified struct and a literal struct with the same fields compare equal (or two copies differ)", map[string]string{"t": trees[i].enc(), "u": trees[j].enc(), "ts": built[i].String(), "us": built[j].String()})
+			} else {
+				o.Pass("structural_identity")
+			}
 		}
 	}
 	for i := range trees {
@@ -166,4 +201,28 @@ func quoteIfNeeded(name string) string {
 		}
 	}
 	return name
+}
+
+// treeOf converts a Go type of the generated universes back into a type tree
+func treeOf(t types.Type) *tyTree {
+	switch t := t.(type) {
+	case *types.VoidType:
+		return &tyTree{kind: 'v'}
+	case *types.IntType:
+		return &tyTree{kind: 'i', n: t.BitSize}
+	case *types.PointerType:
+		return &tyTree{kind: 'p', n: uint64(t.AddrSpace), children: []*tyTree{treeOf(t.ElemType)}}
+	case *types.StructType:
+		if t.TypeName != "" {
+			return &tyTree{kind: 'N', name: t.TypeName}
+		}
+		s := &tyTree{kind: 'S', flag: t.Packed}
+		for _, f := range t.Fields {
+			s.children = append(s.children, treeOf(f))
+		}
+		return s
+	case *types.ArrayType:
+		return &tyTree{kind: 'A', n: t.Len, children: []*tyTree{treeOf(t.ElemType)}}
+	}
+	panic(fmt.Sprintf("treeOf %T", t))
 }
